@@ -42,6 +42,7 @@ pub fn arb_pty_srv() -> BoxedStrategy<PtySrvCase> {
                         units: units.clone(),
                         auth: None,
                         decode,
+                        aliases: vec![],
                     },
                     frames,
                     select_seed: 0,
@@ -99,6 +100,7 @@ fn run_pty_srv(case: &PtySrvCase, slow: u32) -> CaseResult {
         framing: crate::model::server::Framing::Rtu,
         units: case.base.cfg.unit_map(),
         auth: None::<AuthModel>,
+        aliases: Default::default(),
     };
     let mut ok = CaseOk::new();
     let mut silent_frames = 0;
